@@ -100,7 +100,7 @@ class Unit:
 
         if unit == 'U':
             return value, unit
-        for base_unit in ['mol', 'g', 'L', 'M']:
+        for base_unit in ['mol', 'g', 'L', 'M', 'U']:
             if unit.endswith(base_unit):
                 prefix = unit[:-len(base_unit)]
                 value = value * Unit.convert_prefix_to_multiplier(prefix)
